@@ -53,7 +53,7 @@ def reachable (w : World) : Nat → List Str → Str → List Str
   | n + 1, seen, path =>
     if seen.contains path then seen
     else match w.find path with
-      | none => seen
+      | none => seen ++ [path]          -- unknown to the type checker: visiting it fails (an error, not silence)
       | some p => p.imports.foldl (fun s i => reachable w n s i) (seen ++ [path])
 
 /-- `addPkgsToUniverse(pkgs, u)` -/
